@@ -16,9 +16,11 @@ is in `FR/Proofs/BufIndep.lean`), and the theorems are restated without it:
 * `sendChunks_flatten` : any number of chunks, sent one by one, equal one write of their concatenation;
 * `chunking_irrelevant` : two chunkings of the same stream end in the same state — same replies, in the same order.
 
-The aliveness side condition is necessary (`aliveness_needed`): a connection dies when an exception escapes
-`sendall` (the model's `crashed`), and the NEXT write to a dead connection raises `StopIteration` instead of
-buffering, whereas the one-shot write just stops parsing.
+The aliveness side condition: a connection dies when an exception escapes `sendall` (the model's `crashed`), and the
+NEXT write to a dead connection raises `StopIteration` instead of buffering, whereas the one-shot write just stops
+parsing.  Since the fix of KF-1 ((P)SUBSCRIBE / (P)UNSUBSCRIBE are refused inside MULTI instead of being queued) the
+history that used to kill a connection no longer does (`kf1_history_alive`, section 5), and `FR/Props/C04k.lean`
+discharges the hypothesis for reachable states.
 -/
 namespace FR.Props.C04s
 open FR FR.BufIndep M
@@ -151,7 +153,15 @@ theorem all_chunkings_agree (mode : Mode) (c : Nat) (stream : Bytes) (s : Sys)
   subst hflat
   exact sendChunks_flatten_of_final mode c cs hne s h
 
-/-! ## 5. the aliveness condition is necessary -/
+/-! ## 5. the aliveness condition after the fix of KF-1
+
+Before the fix, `MULTI / SUBSCRIBE x / EXEC` killed the connection (SUBSCRIBE was queued, its `NoResponse` tripped the
+assertion in EXEC), and the former theorem `aliveness_needed` exhibited that history as a witness that the aliveness
+hypothesis of `sendall_append` cannot be dropped.  The code now refuses (P)SUBSCRIBE / (P)UNSUBSCRIBE at queue time,
+the witness is gone, and the same history is an instance of the theorems above (`kf1_history_alive`,
+`kf1_history_chunking`).  `FR/Props/C04k.lean` discharges the aliveness hypothesis from reachability.  What remains
+inside the MODEL is a run the model itself declares unfaithful: a script command queued in a MULTI is not modelled
+(`fault` is set when EXEC reaches it) and takes the same assertion path (`model_gap_still_dies`). -/
 
 /-- a fresh server with one connection and a few clock readings -/
 def s0 : Sys := { srv := { conns := [{ id := 1 }] }, clocks := [1, 2, 3, 4, 5, 6] }
@@ -159,8 +169,8 @@ def s0 : Sys := { srv := { conns := [{ id := 1 }] }, clocks := [1, 2, 3, 4, 5, 6
 /-- `*1 $4 ping` -/
 def ping : Bytes := [42, 49, 13, 10, 36, 52, 13, 10, 112, 105, 110, 103, 13, 10]
 
-/-- `MULTI`, `SUBSCRIBE x`, `EXEC` pipelined: SUBSCRIBE is queued, EXEC runs it, its `NoResponse` trips the assertion in
-EXEC, the exception escapes `sendall` and the parser generator is dead -/
+/-- `MULTI`, `SUBSCRIBE x`, `EXEC` pipelined: SUBSCRIBE is refused ("Command not allowed inside a transaction"), the
+transaction is marked failed, EXEC answers EXECABORT -/
 def multiSubExec : Bytes :=
   [42, 49, 13, 10, 36, 53, 13, 10, 109, 117, 108, 116, 105, 13, 10,
    42, 50, 13, 10, 36, 57, 13, 10, 115, 117, 98, 115, 99, 114, 105, 98, 101, 13, 10, 36, 49, 13, 10, 120, 13, 10,
@@ -169,24 +179,45 @@ def multiSubExec : Bytes :=
 example : multiSubExec = encodeRequest [strBytes "multi"] ++ encodeRequest [strBytes "subscribe", [120]] ++
     encodeRequest [strBytes "exec"] := by decide +kernel
 
-/-- **Witness that aliveness cannot be dropped.**  After `MULTI / SUBSCRIBE x / EXEC` the connection is dead.  Writing
-a further `PING` as a second chunk raises `StopIteration` and buffers nothing; writing everything at once raises the
-`AssertionError` of EXEC and leaves the `PING` unparsed in the buffer.  The replies are the same, the states are not.
-(Replay on fakeredis: `sock.sendall(multi+subscribe+exec)` then `sock.sendall(ping)`, against one `sendall` of all four.) -/
-theorem aliveness_needed :
+/-- **The former witness is now harmless.**  After `MULTI / SUBSCRIBE x / EXEC` the connection is alive, no exception
+escaped, the three replies are `+OK`, the refusal and `-EXECABORT`, the connection is back in normal mode and
+subscribed to nothing.  (Replaces `aliveness_needed`, which asserted `dead = true` and `crashed = some "AssertionError"`
+for this very history.) -/
+theorem kf1_history_alive :
     (connOf s0 1).dead = false ∧
-    (connOf ((sendall {} 1 multiSubExec).run s0).2 1).dead = true ∧
-    ((do sendall {} 1 multiSubExec; sendall {} 1 ping : M Unit).run s0).2.crashed = some "StopIteration" ∧
-    ((sendall {} 1 (multiSubExec ++ ping)).run s0).2.crashed = some "AssertionError" ∧
-    (connOf ((do sendall {} 1 multiSubExec; sendall {} 1 ping : M Unit).run s0).2 1).buf = [] ∧
-    (connOf ((sendall {} 1 (multiSubExec ++ ping)).run s0).2 1).buf = ping ∧
-    (do sendall {} 1 multiSubExec; sendall {} 1 ping : M Unit).run s0 ≠ (sendall {} 1 (multiSubExec ++ ping)).run s0 := by
-  have h3 : ((do sendall {} 1 multiSubExec; sendall {} 1 ping : M Unit).run s0).2.crashed = some "StopIteration" := by
-    decide +kernel
-  have h4 : ((sendall {} 1 (multiSubExec ++ ping)).run s0).2.crashed = some "AssertionError" := by decide +kernel
-  refine ⟨by decide +kernel, by decide +kernel, h3, h4, by decide +kernel, by decide +kernel, fun e => ?_⟩
-  rw [e, h4] at h3
-  exact absurd h3 (by decide)
+    (connOf ((sendall {} 1 multiSubExec).run s0).2 1).dead = false ∧
+    ((sendall {} 1 multiSubExec).run s0).2.crashed = none ∧
+    ((sendall {} 1 multiSubExec).run s0).2.fault = none ∧
+    ((sendall {} 1 multiSubExec).run s0).2.out.reverse.map (fun p => (p.1, p.2.render)) =
+      [(1, Reply.ok.render), (1, (Reply.err (strBytes Msgs.COMMAND_IN_MULTI_MSG)).render),
+       (1, (Reply.err (strBytes Msgs.EXECABORT_MSG)).render)] ∧
+    (connOf ((sendall {} 1 multiSubExec).run s0).2 1).tx = none ∧
+    (connOf ((sendall {} 1 multiSubExec).run s0).2 1).pubsub = 0 ∧
+    ((sendall {} 1 multiSubExec).run s0).2.srv.subs = [] := by
+  decide +kernel
+
+/-- … so the chunking theorem applies to it: a further `PING` written as a second chunk, or everything at once, is
+the same run (before the fix: `StopIteration` against `AssertionError`, different buffers) -/
+theorem kf1_history_chunking :
+    (do sendall {} 1 multiSubExec; sendall {} 1 ping : M Unit).run s0 = (sendall {} 1 (multiSubExec ++ ping)).run s0 :=
+  sendall_append {} 1 multiSubExec ping s0 kf1_history_alive.2.1
+
+/-- `MULTI`, `EVAL "return 1" 0`, `EXEC`: outside the model (script commands inside MULTI are not modelled) -/
+def multiEvalExec : Bytes :=
+  encodeRequest [strBytes "multi"] ++ encodeRequest [strBytes "eval", strBytes "return 1", strBytes "0"] ++
+    encodeRequest [strBytes "exec"]
+
+/-- **What is left of the side condition inside the model.**  A script command queued in a MULTI is answered by the
+model with `NoResponse` and the `fault` marker ("command not modelled"): the run is declared unfaithful, and EXEC then
+takes the assertion path, so the model connection dies.  On such a run the two ways of writing differ exactly as
+before; this is a statement about the model's gap, not about fakeredis (no claim is made on faulted runs). -/
+theorem model_gap_still_dies :
+    (connOf s0 1).dead = false ∧
+    (connOf ((sendall {} 1 multiEvalExec).run s0).2 1).dead = true ∧
+    ((sendall {} 1 multiEvalExec).run s0).2.fault = some "model: command not modelled: eval" ∧
+    ((do sendall {} 1 multiEvalExec; sendall {} 1 ping : M Unit).run s0).2.crashed = some "StopIteration" ∧
+    ((sendall {} 1 (multiEvalExec ++ ping)).run s0).2.crashed = some "AssertionError" := by
+  decide +kernel
 
 /-! ## 6. non-vacuity -/
 
@@ -220,8 +251,8 @@ example : (sendChunks {} 1 [chunkA, chunkB]).run s0 = (sendall {} 1 (chunkA ++ c
 example : (sendChunks {} 1 ((chunkA ++ chunkB).map fun x => [x])).run s0 = (sendall {} 1 (chunkA ++ chunkB)).run s0 :=
   all_chunkings_agree {} 1 (chunkA ++ chunkB) s0 (by decide +kernel) _ (by decide) (by decide +kernel)
 
-/-- `sendall_append_dead` applies to the witness of section 5 -/
-example : (sendall {} 1 (multiSubExec ++ ping)).run s0 = ((), appendBuf 1 ping ((sendall {} 1 multiSubExec).run s0).2) :=
-  sendall_append_dead {} 1 multiSubExec ping s0 (by decide +kernel) (by decide +kernel)
+/-- `sendall_append_dead` applies to the faulted model run of section 5 (its hypotheses are satisfiable in the model) -/
+example : (sendall {} 1 (multiEvalExec ++ ping)).run s0 = ((), appendBuf 1 ping ((sendall {} 1 multiEvalExec).run s0).2) :=
+  sendall_append_dead {} 1 multiEvalExec ping s0 (by decide +kernel) (by decide +kernel)
 
 end FR.Props.C04s
